@@ -233,6 +233,7 @@ func agentsDriver(args []string) error {
 		}
 		tw.Emit(trace.Ev{"a": "reset", "events": nEvents})
 		uniq := 0
+		delivered := map[string]bool{}
 
 		run := func(role string, factory gossip.TaskFactory, scen func(deliver func(tamper string, lo, hi int, mutate func(b *protocol.BatchSnapshots)))) error {
 			nt := &memNotifier{}
@@ -254,10 +255,17 @@ func agentsDriver(args []string) error {
 					mutate(b)
 				}
 				if role != "publisher" && len(b.Snapshots) > 0 && b.Snapshots[len(b.Snapshots)-1] != nil {
-					// the processor drops a batch whose content it has already seen: make every delivery unique
-					// (the publisher keys on signatures, its batches keep the genuine ones)
-					uniq++
-					b.Snapshots[len(b.Snapshots)-1].Signature = append(append([]byte{}, b.Snapshots[len(b.Snapshots)-1].Signature...), []byte(fmt.Sprintf("#%d", uniq))...)
+					// the processor (rightly) drops a batch whose exact content it has already seen: only
+					// such a repetition gets a distinguishing signature suffix. An ALTERED copy of an
+					// earlier batch keeps the original signatures (agents do not verify them): it is
+					// another batch and must be audited
+					raw, _ := json.Marshal(b)
+					if delivered[role+string(raw)] {
+						uniq++
+						b.Snapshots[len(b.Snapshots)-1].Signature = append(append([]byte{}, b.Snapshots[len(b.Snapshots)-1].Signature...), []byte(fmt.Sprintf("#%d", uniq))...)
+						raw, _ = json.Marshal(b)
+					}
+					delivered[role+string(raw)] = true
 				}
 				agent.Qed = newClient() // a failed request marks the only endpoint dead: every delivery gets a fresh client
 				api.set(tamper)
@@ -326,6 +334,19 @@ func agentsDriver(args []string) error {
 				}
 				lo, hi := pick()
 				deliver("none", lo, hi, nil)
+				// the same batch again, altered, with the original signatures
+				switch r % 3 {
+				case 0:
+					deliver("gossip_history", lo, hi, func(b *protocol.BatchSnapshots) {
+						b.Snapshots[0].Snapshot.HistoryDigest = flip(b.Snapshots[0].Snapshot.HistoryDigest)
+					})
+				case 1:
+					deliver("gossip_event", lo, hi, func(b *protocol.BatchSnapshots) {
+						b.Snapshots[0].Snapshot.EventDigest = flip(b.Snapshots[0].Snapshot.EventDigest)
+					})
+				default:
+					deliver("gossip_version_up", lo, hi, func(b *protocol.BatchSnapshots) { b.Snapshots[0].Snapshot.Version++ })
+				}
 				lo, hi = pick()
 				deliver("gossip_history", lo, hi, func(b *protocol.BatchSnapshots) {
 					b.Snapshots[0].Snapshot.HistoryDigest = flip(b.Snapshots[0].Snapshot.HistoryDigest)
@@ -374,6 +395,10 @@ func agentsDriver(args []string) error {
 				}
 				lo, hi := pick()
 				deliver("none", lo, hi, nil)
+				// the same batch again, altered, with the original signatures
+				deliver("gossip_first_history", lo, hi, func(b *protocol.BatchSnapshots) {
+					b.Snapshots[0].Snapshot.HistoryDigest = flip(b.Snapshots[0].Snapshot.HistoryDigest)
+				})
 				deliver("none", lo, lo, func(b *protocol.BatchSnapshots) { b.Snapshots[0].Signature = []byte(fmt.Sprintf("single-%d", r)) })
 				lo, hi = pick()
 				deliver("gossip_first_history", lo, hi, func(b *protocol.BatchSnapshots) {
